@@ -36,7 +36,8 @@ def step (st : St) (line : String) : IO St := do
     -- across thread counts: re-association only
     let w := hexF ((kv rest "worst_vs_1").getD "")
     let solveLike := (op.splitOn "smoother").length > 1 ∨ (op.splitOn "direct").length > 1 ∨ (op.splitOn "solve").length > 1
-    let bound : Float := if solveLike then 1e-6 else 1e-11
+    -- two cycles of a whole solve: a thread-count dependent hierarchy or operator shows at 1e-3 … 1e-5, re-association at 1e-12
+    let bound : Float := if (op.splitOn "solve-2-cycles").length > 1 then 1e-9 else if solveLike then 1e-6 else 1e-11
     if !(w ≤ bound) then st ← fail s!"differs from the single-threaded result by {w} (relative), more than re-association explains" st
     let sample := if st.sample.length < 3 then st.sample ++ [(line.take 200).toString] else st.sample
     return { st with sample := sample }
